@@ -382,6 +382,40 @@ def r5_headers(ctx, F, table):
                   "%s: header written to `%s`, committed `%s` with `%s`; required header on %s, commit with %s"
                   % (hn, w0, c0, c1, exp[hn]["header_writer"], exp[hn]["commit_arg"]), loc=cm[0].loc())
         ctx.check("R5-custom-headers", hn + "/order", h.dominates(wa[0].bb, cm[0].bb), "%s: commit is not after the header write" % hn, loc=cm[0].loc())
+        # an error returned by the filesystem is always answered as an error: from the Err edge of the filesystem's result
+        # the success header cannot be reached, and an error reply is sent on every path
+        fsc = [c for c in h.calls() if c.trait == common.FS_TRAIT and c.bb in h.reachable() and not h.is_cleanup(c.bb)]
+        sites = {(h.key, c.bb) for c in fsc}
+
+        def is_res(e):
+            e = vf.strip_upd(e)
+            if e[0] == "C":
+                return e[4] in sites
+            if e[0] == "PHI":
+                return all(is_res(x) for (_, x) in e[2])
+            return False
+        err_edges = []
+        for u in h.reachable():
+            t = h.term(u)
+            if t[0] != "switch":
+                continue
+            c_ = v.operand(t[1], u, len(h.stmts(u)))
+            if c_[0] == "D" and is_res(c_[1]):
+                err_edges += [tgt for (lab, tgt) in h.switch_edges(u) if lab == 1]
+        ok = bool(err_edges)
+        for tgt in err_edges:
+            reach = h.reach_set(tgt)
+            ok = ok and wa[0].bb not in reach
+            ers = {c.bb for c in h.calls() if c.name in ("reply_error", "reply_error_explicit") and c.bb in reach}
+            ok = ok and bool(ers) and (tgt in ers or not _path_avoiding(h, tgt, ers))
+        ctx.check("R5-custom-headers", hn + "/error-is-error", ok,
+                  "%s: an error returned by the filesystem can be answered with a success header (or not at all): the client must get the negated errno" % hn, loc=h.loc())
+
+
+def _path_avoiding(h, start, avoid):
+    """is a return block reachable from start without passing a block of `avoid`?"""
+    reach = h.reach_set(start, avoid=avoid)
+    return any(r in reach for r in h.return_blocks())
 
 
 def r6_notify(ctx, F, table):
